@@ -16,6 +16,20 @@ CLAIMS = {
             "CPython-rules decoder comparing input and output trees (itself cross-checked against the sandbox's CPython 3.11).",
             "Modelled, not verified: CPython's marshal rules per version (lib/pymarshal.py); bytecode semantics never interpreted; the model writes on dereferenced values and orders flags by "
             "stream position (= offset order), validated byte-for-byte by the differential run.", "DESIGN.md section 5-C02"),
+    "C03": ("PARTIAL. Coq theorems about a model of Zip::process with the parts of the zip crate it relies on (end-of-central-directory search, central/local headers, raw_copy_file, finish): "
+            "the magics, the three patch offsets (local +10, central +12 and +38), word order and operators regenerated from zip.rs are those of the records the model writes (patching there = "
+            "writing the record with the new value, all members); for EVERY epoch in the DOS range (all 46751 days enumerated in the kernel, time of day by arithmetic) the conversion yields words "
+            "that read back as the epoch rounded down to 2 s in UTC; a clamped member keeps name/method/CRC/sizes/attributes/data, its time is kept if not later than the epoch and is the DOS epoch "
+            "otherwise, both header copies being written from the one clamped member; the output is zip_write of the clamped members in index order, one per entry. The theorem 'the model's reader "
+            "applied to zip_write l returns l' is not closed in Coq yet: that the output is a valid archive with the same members is decided by the byte-exact differential run (extracted model vs. "
+            "the real handler) and by an independent reader (python zipfile + own central/local header parser) comparing members before/after.",
+            "Modelled, not verified: the zip crate (0.6.6) reader/writer as modelled in Zip.v (single disk, no zip64/AES records: such archives are outside the modelled class and only judged by the "
+            "independent-reader oracle), CP437 table, DEFLATE data opaque.", "DESIGN.md section 5-C03"),
+    "C07": ("PARTIAL. Coq theorems: gzip and pyc-zero-mtime find nothing to change in their own output (all inputs, all epochs); a zip/jar member is not later than the epoch after the clamp; for ANY handler "
+            "whose byte-level function is idempotent, a fault-free run that replaced a single-link file is followed by a run that reports Noop, and a run that does not report Replaced leaves the file's "
+            "bytes, inode and metadata alone (any fault). Idempotence of the byte-level functions of ar, javadoc, pyc and zip is not yet closed in Coq: it is decided by re-running model and "
+            "implementation on every output of a modifying first run (all six handlers, generated inputs) and by CLI runs run;run;--check in the four serial/parallel combinations with inode/mtime snapshots.",
+            "Modelled, not verified: the parallel controller; the multi-link rewrite path is covered by the tree runs.", "DESIGN.md section 5-C07"),
     "C08": ("Coq theorems for every byte string: none of the modelled handlers (gzip, ar, javadoc, pyc incl. the recursive marshal reader with its depth limit, pyc-zero-mtime) can reach a panic; "
             "a handler run ends without a result only if the handler's own code panics, hence the walk processes and counts every entry whatever the files contain; a file not reported Replaced is "
             "byte- and metadata-identical afterwards (any handler, any single fault). The polynomial-cost statement is refuted on the model with computed instances (reference DAG, recorded finding F9). "
